@@ -1,13 +1,1365 @@
-//! C18 — not implemented yet (stub so that props/mod.rs never has to change).
-use crate::engine::PropSpec;
+//! C18 — Accepted configurations work; refused or unnamed settings change nothing.
+//!
+//! Sub-check `config`: generated `ConfigOptions` (every field unset / 0 / 1 / validation boundary /
+//! interior / huge) applied at `Repository::init` and as a sequence of `apply_config` calls.
+//! Oracles: no panic; an accepted configuration carries a complete smoke run (backup, read back
+//! = model, check --read-data, prune, restore = model); after every accepted change the stored
+//! configuration, re-read through a fresh `open`, differs from the previous one exactly in the
+//! named fields; version downgrades are refused; after a refused change the stored bytes are
+//! identical.
+//!
+//! Sub-check `prune_limits`: generated `PruneOptions` (limits 0 % … u64::MAX %, sizes, unlimited;
+//! negative / zero / huge spans; all boolean switches) on a small repository with a forgotten
+//! snapshot. Oracles: `prune_plan` / `prune` return Ok or Err, never panic; after Ok the remaining
+//! snapshot reads back equal to its model and `check --read-data` is clean.
+
+use std::{str::FromStr, sync::Arc};
+
+use proptest::prelude::*;
+use rustic_core::{
+    ConfigOptions, FileType, Id, KeyOptions, LimitOption, PruneOptions, Repository, RestoreOptions,
+    jiff::Span,
+    repofile::{Chunker, ConfigFile, SnapshotFile},
+};
+use serde::{Deserialize, Serialize};
+use serde_json::Value;
+
+use crate::{
+    engine::{Ctx, DynSub, Outcome, PropSpec, Sub, guarded},
+    fsutil::{Scratch, walk},
+    r#gen::{Edit, TreeParams, apply_edit, edit, tree},
+    membe::Storage,
+    model::{Content, MKind, MNode, MTime, Piece, ReadSchedule, flatten},
+    repo::{
+        ChunkerCfg, CmpOpts, PackCfg, RepoCfg, RepoOpen, backends, backup_tree, check_repo, compare,
+        estr, force_opts, init_repo, open_full, open_repo, read_snapshot, repo_opts, snap_template,
+    },
+    restore::{FsCmp, compare_fs, restore_snapshot},
+};
+
+// ---------------------------------------------------------------------------------------------
+// known findings: input-side predicates
+// ---------------------------------------------------------------------------------------------
+
+/// `ConfigOptions::apply` assigns `extra_verify` unconditionally
+pub const K_EXTRA_VERIFY: &str = "extra-verify-reset";
+/// `PackSizer::pack_size`: `isqrt(current) * grow + default` in u32
+pub const K_GROW: &str = "packsize-grow-overflow";
+/// fixed-size chunker with chunk size 0 is accepted and stores every file as empty
+pub const K_FIXED_ZERO: &str = "fixed-chunker-size-zero";
+/// `decide_repack`: `p * used / (100 - p)`
+pub const K_UNUSED_100: &str = "prune-max-unused-percent-ge-100";
+/// `decide_repack`: `p * total / 100` (and `p * used`) overflow u64 for a huge percentage
+pub const K_PCT_OVERFLOW: &str = "prune-max-repack-percent-overflow";
+
+/// pick the key to report: the first matching key that is listed as known, else the first match
+fn choose_key(ctx: &Ctx, matched: &[&'static str]) -> Option<&'static str> {
+    matched
+        .iter()
+        .find(|k| ctx.is_known(k))
+        .or_else(|| matched.first())
+        .copied()
+}
+
+/// development knob: `VP_ASSUME_KNOWN=all` (or a comma list of keys) treats the matching cases as
+/// not judged, to see what is left behind the known findings before they are listed
+fn assumed_known(ctx: &Ctx, matched: &[&'static str]) -> Option<&'static str> {
+    if ctx.strict {
+        return None;
+    }
+    let v = std::env::var("VP_ASSUME_KNOWN").ok()?;
+    matched
+        .iter()
+        .find(|k| v == "all" || v.split(',').any(|x| x == **k))
+        .copied()
+}
+
+// ---------------------------------------------------------------------------------------------
+// generated configuration options
+// ---------------------------------------------------------------------------------------------
+
+#[derive(Debug, Clone, Default, PartialEq, Eq, Serialize, Deserialize)]
+#[serde(default)]
+pub struct Opts {
+    #[serde(skip_serializing_if = "Option::is_none")]
+    pub version: Option<u32>,
+    /// 0 = rabin, 1 = fixed_size
+    #[serde(skip_serializing_if = "Option::is_none")]
+    pub chunker: Option<u8>,
+    #[serde(skip_serializing_if = "Option::is_none")]
+    pub chunk_size: Option<u64>,
+    #[serde(skip_serializing_if = "Option::is_none")]
+    pub chunk_min: Option<u64>,
+    #[serde(skip_serializing_if = "Option::is_none")]
+    pub chunk_max: Option<u64>,
+    #[serde(skip_serializing_if = "Option::is_none")]
+    pub compression: Option<i32>,
+    #[serde(skip_serializing_if = "Option::is_none")]
+    pub append_only: Option<bool>,
+    #[serde(skip_serializing_if = "Option::is_none")]
+    pub treepack_size: Option<u64>,
+    #[serde(skip_serializing_if = "Option::is_none")]
+    pub treepack_limit: Option<u64>,
+    #[serde(skip_serializing_if = "Option::is_none")]
+    pub treepack_grow: Option<u32>,
+    #[serde(skip_serializing_if = "Option::is_none")]
+    pub datapack_size: Option<u64>,
+    #[serde(skip_serializing_if = "Option::is_none")]
+    pub datapack_limit: Option<u64>,
+    #[serde(skip_serializing_if = "Option::is_none")]
+    pub datapack_grow: Option<u32>,
+    #[serde(skip_serializing_if = "Option::is_none")]
+    pub min_pct: Option<u32>,
+    #[serde(skip_serializing_if = "Option::is_none")]
+    pub max_pct: Option<u32>,
+    #[serde(skip_serializing_if = "Option::is_none")]
+    pub extra_verify: Option<bool>,
+}
+
+/// a byte size the way a caller without access to the `bytesize` crate (or the CLI) gets one:
+/// by parsing the decimal number
+fn bs<T: FromStr>(v: u64) -> T {
+    v.to_string()
+        .parse()
+        .ok()
+        .expect("a plain decimal number parses as a byte size")
+}
+
+fn lib_chunker(c: u8) -> Chunker {
+    if c == 0 { Chunker::Rabin } else { Chunker::FixedSize }
+}
+
+/// is this one of the boundary / huge values the non-triviality rule asks for
+fn boundary_u(v: u64) -> bool {
+    v <= 1
+        || matches!(v, 63 | 64 | 65 | 99 | 100 | 101 | 4095 | 4096)
+        || v >= u64::from(u32::MAX) - 1
+        || (v >= 64
+            && (v.is_power_of_two() || (v + 1).is_power_of_two() || (v - 1).is_power_of_two()))
+}
+
+fn boundary_i(v: i32) -> bool {
+    matches!(v, -131_073 | -131_072 | -8 | -7 | -1 | 0 | 1 | 22 | 23 | i32::MIN | i32::MAX)
+}
+
+impl Opts {
+    pub fn to_lib(&self) -> ConfigOptions {
+        let mut o = ConfigOptions::default();
+        o.set_version = self.version;
+        o.set_chunker = self.chunker.map(lib_chunker);
+        o.set_chunk_size = self.chunk_size.map(bs);
+        o.set_chunk_min_size = self.chunk_min.map(bs);
+        o.set_chunk_max_size = self.chunk_max.map(bs);
+        o.set_compression = self.compression;
+        o.set_append_only = self.append_only;
+        o.set_treepack_size = self.treepack_size.map(bs);
+        o.set_treepack_size_limit = self.treepack_limit.map(bs);
+        o.set_treepack_growfactor = self.treepack_grow;
+        o.set_datapack_size = self.datapack_size.map(bs);
+        o.set_datapack_size_limit = self.datapack_limit.map(bs);
+        o.set_datapack_growfactor = self.datapack_grow;
+        o.set_min_packsize_tolerate_percent = self.min_pct;
+        o.set_max_packsize_tolerate_percent = self.max_pct;
+        o.set_extra_verify = self.extra_verify;
+        o
+    }
+
+    pub fn named(&self) -> usize {
+        [
+            self.version.is_some(),
+            self.chunker.is_some(),
+            self.chunk_size.is_some(),
+            self.chunk_min.is_some(),
+            self.chunk_max.is_some(),
+            self.compression.is_some(),
+            self.append_only.is_some(),
+            self.treepack_size.is_some(),
+            self.treepack_limit.is_some(),
+            self.treepack_grow.is_some(),
+            self.datapack_size.is_some(),
+            self.datapack_limit.is_some(),
+            self.datapack_grow.is_some(),
+            self.min_pct.is_some(),
+            self.max_pct.is_some(),
+            self.extra_verify.is_some(),
+        ]
+        .iter()
+        .filter(|b| **b)
+        .count()
+    }
+
+    pub fn has_boundary(&self) -> bool {
+        let u64s = [
+            self.version.map(u64::from),
+            self.chunk_size,
+            self.chunk_min,
+            self.chunk_max,
+            self.treepack_size,
+            self.treepack_limit,
+            self.treepack_grow.map(u64::from),
+            self.datapack_size,
+            self.datapack_limit,
+            self.datapack_grow.map(u64::from),
+            self.min_pct.map(u64::from),
+            self.max_pct.map(u64::from),
+        ];
+        u64s.iter().flatten().any(|v| boundary_u(*v)) || self.compression.is_some_and(boundary_i)
+    }
+
+    /// The configuration a change that names exactly these settings must produce from `old`.
+    /// `Err` = a named value cannot be stored in the field at all, so accepting it is wrong.
+    pub fn expect(&self, old: &ConfigFile) -> Result<ConfigFile, String> {
+        fn to_usize(name: &str, v: u64) -> Result<usize, String> {
+            usize::try_from(v).map_err(|_| format!("{name}={v} does not fit the stored field"))
+        }
+        fn to_u32(name: &str, v: u64) -> Result<u32, String> {
+            u32::try_from(v).map_err(|_| format!("{name}={v} does not fit the stored 32-bit field"))
+        }
+        let mut c = old.clone();
+        if let Some(v) = self.version {
+            c.version = v;
+        }
+        if let Some(ch) = self.chunker {
+            c.chunker = Some(lib_chunker(ch));
+        }
+        if let Some(v) = self.chunk_size {
+            c.chunk_size = Some(to_usize("chunk_size", v)?);
+        }
+        if let Some(v) = self.chunk_min {
+            c.chunk_min_size = Some(to_usize("chunk_min_size", v)?);
+        }
+        if let Some(v) = self.chunk_max {
+            c.chunk_max_size = Some(to_usize("chunk_max_size", v)?);
+        }
+        if let Some(v) = self.compression {
+            c.compression = Some(v);
+        }
+        if let Some(v) = self.append_only {
+            c.append_only = Some(v);
+        }
+        if let Some(v) = self.treepack_size {
+            c.treepack_size = Some(to_u32("treepack_size", v)?);
+        }
+        if let Some(v) = self.treepack_limit {
+            c.treepack_size_limit = Some(to_u32("treepack_size_limit", v)?);
+        }
+        if let Some(v) = self.treepack_grow {
+            c.treepack_growfactor = Some(v);
+        }
+        if let Some(v) = self.datapack_size {
+            c.datapack_size = Some(to_u32("datapack_size", v)?);
+        }
+        if let Some(v) = self.datapack_limit {
+            c.datapack_size_limit = Some(to_u32("datapack_size_limit", v)?);
+        }
+        if let Some(v) = self.datapack_grow {
+            c.datapack_growfactor = Some(v);
+        }
+        if let Some(v) = self.min_pct {
+            c.min_packsize_tolerate_percent = Some(v);
+        }
+        if let Some(v) = self.max_pct {
+            c.max_packsize_tolerate_percent = Some(v);
+        }
+        if let Some(v) = self.extra_verify {
+            c.extra_verify = Some(v);
+        }
+        Ok(c)
+    }
+}
+
+/// field-by-field difference of two stored configurations (None = identical)
+fn diff_cfg(want: &ConfigFile, got: &ConfigFile) -> Option<String> {
+    let w = serde_json::to_value(want).expect("config serialises");
+    let g = serde_json::to_value(got).expect("config serialises");
+    let (Value::Object(w), Value::Object(g)) = (w, g) else {
+        return Some("configuration does not serialise as an object".into());
+    };
+    let mut keys: Vec<&String> = w.keys().chain(g.keys()).collect();
+    keys.sort();
+    keys.dedup();
+    let diffs: Vec<String> = keys
+        .into_iter()
+        .filter(|k| w.get(*k) != g.get(*k))
+        .map(|k| {
+            let show = |v: Option<&Value>| v.map_or("unset".to_string(), Value::to_string);
+            format!("{k}: expected {}, stored {}", show(w.get(k)), show(g.get(k)))
+        })
+        .collect();
+    if diffs.is_empty() { None } else { Some(diffs.join("; ")) }
+}
+
+/// pack sizes and pack size limits. `near_max` = weight of the values just below 2^32 (as a pack
+/// size they overflow PackSizer::pack_size together with any grow factor: kept rare)
+fn size_values(near_max: u32) -> BoxedStrategy<u64> {
+    prop_oneof![
+        4 => Just(0u64),
+        2 => Just(1u64),
+        4 => prop::sample::select(vec![63u64, 64, 65, 100, 4095, 4096, 4097, 65_536]),
+        6 => 1u64..200_000,
+        2 => prop::sample::select(vec![4u64 << 20, 32 << 20, 1 << 31]),
+        near_max => prop::sample::select(vec![u64::from(u32::MAX) - 1, u64::from(u32::MAX)]),
+        2 => prop::sample::select(vec![u64::from(u32::MAX) + 1, 1u64 << 40, u64::MAX]),
+    ]
+    .boxed()
+}
+
+fn grow_values() -> BoxedStrategy<u32> {
+    prop_oneof![
+        6 => Just(0u32),
+        5 => Just(1u32),
+        4 => Just(32u32),
+        4 => 2u32..2000,
+        // (these overflow PackSizer::pack_size: kept rare so that most cases are judged)
+        1 => prop::sample::select(vec![65_536u32, 1 << 24, u32::MAX - 1, u32::MAX]),
+    ]
+    .boxed()
+}
+
+/// (chunker, size, min, max): half of the time a coherent rabin / fixed parameter set with
+/// boundary members, otherwise every field on its own
+fn chunk_group(p: f64) -> BoxedStrategy<(Option<u8>, Option<u64>, Option<u64>, Option<u64>)> {
+    let any_size = || {
+        prop_oneof![
+            2 => Just(0u64),
+            1 => Just(1u64),
+            2 => prop::sample::select(vec![63u64, 64, 65, 4095, 4096, 4097]),
+            3 => (6u32..=16, -1i64..=1).prop_map(|(k, d)| ((1i64 << k) + d) as u64),
+            2 => 2u64..100_000,
+            1 => prop::sample::select(vec![1u64 << 20, 512 << 10, 8 << 20]),
+            1 => prop::sample::select(vec![1u64 << 31, 1 << 32, 1 << 40, 1 << 63, u64::from(u32::MAX), u64::MAX - 1, u64::MAX]),
+        ]
+    };
+    let independent = (
+        prop::option::weighted(p, prop_oneof![Just(0u8), Just(1u8)]),
+        prop::option::weighted(p, any_size()),
+        prop::option::weighted(p, any_size()),
+        prop::option::weighted(p, any_size()),
+    );
+    // coherent rabin triple around 2^k, each member optionally pushed over its boundary
+    let rabin = (
+        6u32..=13,
+        prop::sample::select(vec![0u8, 0, 1, 1, 2, 2, 3, 3, 4, 5]),
+        prop::sample::select(vec![0u8, 0, 1, 1, 2, 2, 3, 3, 4]),
+        prop::sample::select(vec![0u8, 0, 0, 0, 0, 0, 0, 0, 1, 2]),
+        prop::bool::weighted(0.5),
+    )
+        .prop_map(|(k, minsel, maxsel, sizesel, name_chunker)| {
+            let avg = 1u64 << k;
+            let min = match minsel {
+                0 => 64,
+                1 => 65,
+                2 => avg,
+                3 => avg / 2 + 32,
+                4 => avg + 1, // refused
+                _ => 63,      // refused
+            };
+            let max = match maxsel {
+                0 => avg,
+                1 => avg + 1,
+                2 => avg * 8,
+                3 => u64::MAX,
+                _ => avg - 1, // refused
+            };
+            let size = match sizesel {
+                0 => avg,
+                1 => avg + 1, // refused
+                _ => avg - 1, // refused
+            };
+            (name_chunker.then_some(0u8), Some(size), Some(min), Some(max))
+        });
+    let fixed = (
+        prop_oneof![
+            1 => Just(0u64),
+            4 => 1u64..64,
+            8 => 64u64..70_000,
+            2 => prop::sample::select(vec![1u64 << 20, u64::from(u32::MAX), 1 << 40, u64::MAX]),
+        ],
+        prop::option::weighted(0.2, any_size()),
+        prop::option::weighted(0.2, any_size()),
+    )
+        .prop_map(|(size, min, max)| (Some(1u8), Some(size), min, max));
+    prop_oneof![
+        5 => independent,
+        3 => rabin,
+        2 => fixed,
+    ]
+    .boxed()
+}
+
+/// one set of options; `p` = probability that a field is named at all
+fn opts(p: f64) -> BoxedStrategy<Opts> {
+    let version = prop::option::weighted(
+        p * 0.5,
+        prop_oneof![
+            1 => Just(0u32),
+            2 => Just(1u32),
+            7 => Just(2u32),
+            1 => Just(3u32),
+            1 => Just(u32::MAX),
+        ],
+    );
+    let compression = prop::option::weighted(
+        p,
+        prop_oneof![
+            2 => Just(0i32),
+            3 => prop::sample::select(vec![-8i32, -7, -1, 1, 3, 22, 23]),
+            1 => -7i32..=19,
+            1 => prop::sample::select(vec![-131_073i32, -131_072, i32::MIN, i32::MAX]),
+        ],
+    );
+    let append_only = prop::option::weighted(p * 0.25, prop::bool::weighted(0.4));
+    let pct_min = prop::option::weighted(
+        p * 0.7,
+        prop_oneof![
+            4 => prop::sample::select(vec![0u32, 1, 30, 99, 100]),
+            1 => prop::sample::select(vec![101u32, u32::MAX]),
+            1 => 0u32..=100,
+        ],
+    );
+    let pct_max = prop::option::weighted(
+        p * 0.7,
+        prop_oneof![
+            4 => prop::sample::select(vec![0u32, 100, 101, 200, u32::MAX]),
+            1 => prop::sample::select(vec![1u32, 99]),
+            1 => 100u32..1000,
+        ],
+    );
+    let extra_verify = prop::option::weighted(p * 0.2, prop::bool::weighted(0.4));
+    (
+        (version, chunk_group(p), compression, append_only),
+        (
+            prop::option::weighted(p, size_values(1)),
+            prop::option::weighted(p * 0.6, size_values(3)),
+            prop::option::weighted(p * 0.6, grow_values()),
+        ),
+        (
+            prop::option::weighted(p, size_values(1)),
+            prop::option::weighted(p * 0.6, size_values(3)),
+            prop::option::weighted(p * 0.6, grow_values()),
+        ),
+        (pct_min, pct_max, extra_verify),
+    )
+        .prop_map(
+            |((version, (chunker, chunk_size, chunk_min, chunk_max), compression, append_only), tp, dp, (min_pct, max_pct, extra_verify))| Opts {
+                version,
+                chunker,
+                chunk_size,
+                chunk_min,
+                chunk_max,
+                compression,
+                append_only,
+                treepack_size: tp.0,
+                treepack_limit: tp.1,
+                treepack_grow: tp.2,
+                datapack_size: dp.0,
+                datapack_limit: dp.1,
+                datapack_grow: dp.2,
+                min_pct,
+                max_pct,
+                extra_verify,
+            },
+        )
+        .boxed()
+}
+
+fn any_opts() -> BoxedStrategy<Opts> {
+    prop_oneof![3 => opts(0.12), 3 => opts(0.3), 1 => opts(0.6)].boxed()
+}
+
+// ---------------------------------------------------------------------------------------------
+// sub-check "config"
+// ---------------------------------------------------------------------------------------------
+
+#[derive(Debug, Clone, PartialEq, Eq, Serialize, Deserialize)]
+pub enum Start {
+    /// `Repository::init` with these options
+    Init(Opts),
+    /// a version-1 repository (only `init_with_config` can create one)
+    V1,
+}
+
+#[derive(Debug, Clone, PartialEq, Eq, Serialize, Deserialize)]
+pub struct FileSpec {
+    /// size class relative to the chunker parameters of the configuration in force
+    pub class: u8,
+    /// 0 = random, 1 = zeros, 2 = periodic
+    pub kind: u8,
+    pub seed: u64,
+}
+
+#[derive(Debug, Clone, PartialEq, Eq, Serialize, Deserialize)]
+pub struct CfgCase {
+    pub start: Start,
+    /// `apply_config` calls, in order
+    pub steps: Vec<Opts>,
+    /// back up a first tree right after init, so that later changes hit a repository with data
+    pub backup_first: bool,
+    /// forget the first snapshot before the prune of the smoke run
+    pub forget_first: bool,
+    /// 0 = default prune options, 1 = unlimited repack / no unused space, 2 = repack everything +
+    /// instant delete
+    pub prune_mode: u8,
+    pub files: Vec<FileSpec>,
+}
+
+const N_CLASSES: u8 = 13;
+const FILE_CAP: u64 = 300_000;
+
+fn cfg_strategy(_ctx: &Ctx) -> BoxedStrategy<CfgCase> {
+    (
+        prop_oneof![
+            6 => prop_oneof![1 => Just(Opts::default()), 5 => opts(0.12), 3 => opts(0.3), 1 => opts(0.6)].prop_map(Start::Init),
+            1 => Just(Start::V1),
+        ],
+        prop::collection::vec(any_opts(), 0..=4),
+        prop::bool::weighted(0.5),
+        prop::bool::weighted(0.6),
+        prop_oneof![2 => Just(0u8), 2 => Just(1u8), 1 => Just(2u8)],
+        prop::collection::vec(
+            (0..N_CLASSES, 0u8..3, any::<u64>()).prop_map(|(class, kind, seed)| FileSpec { class, kind, seed }),
+            1..=5,
+        ),
+    )
+        .prop_map(|(start, steps, backup_first, forget_first, prune_mode, files)| CfgCase {
+            start,
+            steps,
+            backup_first,
+            forget_first,
+            prune_mode,
+            files,
+        })
+        .boxed()
+}
+
+fn all_opts(c: &CfgCase) -> Vec<&Opts> {
+    let mut v = Vec::new();
+    if let Start::Init(o) = &c.start {
+        v.push(o);
+    }
+    v.extend(c.steps.iter());
+    v
+}
+
+/// input-side predicates of the known findings of this sub-check
+fn cfg_known_keys(c: &CfgCase) -> Vec<&'static str> {
+    let seq = all_opts(c);
+    let mut keys = Vec::new();
+    // an explicit extra_verify followed by a change that does not name it
+    let first_named = seq.iter().position(|o| o.extra_verify.is_some());
+    // (the version-1 start configuration leaves extra_verify unset)
+    let reset = first_named.is_some_and(|i| seq[i + 1..].iter().any(|o| o.extra_verify.is_none()));
+    if reset {
+        keys.push(K_EXTRA_VERIFY);
+    }
+    // isqrt(bytes in the repository) * grow + size can exceed u32: repositories of this check stay
+    // below 4 MiB, so isqrt < 2048
+    let over = |grow: Vec<Option<u32>>, size: Vec<Option<u64>>, default: u64| {
+        let g = grow.iter().flatten().copied().max().map_or(32, |g| g.max(32));
+        let s = size
+            .iter()
+            .flatten()
+            .copied()
+            .filter(|s| *s <= u64::from(u32::MAX))
+            .max()
+            .map_or(default, |s| s.max(default));
+        u64::from(g) * 2048 + s > u64::from(u32::MAX)
+    };
+    if over(
+        seq.iter().map(|o| o.treepack_grow).collect(),
+        seq.iter().map(|o| o.treepack_size).collect(),
+        4 << 20,
+    ) || over(
+        seq.iter().map(|o| o.datapack_grow).collect(),
+        seq.iter().map(|o| o.datapack_size).collect(),
+        32 << 20,
+    ) {
+        keys.push(K_GROW);
+    }
+    if seq.iter().any(|o| o.chunk_size == Some(0)) && seq.iter().any(|o| o.chunker == Some(1)) {
+        keys.push(K_FIXED_ZERO);
+    }
+    keys
+}
+
+fn creds_cfg() -> RepoCfg {
+    RepoCfg::simple()
+}
+
+fn v1_config() -> ConfigFile {
+    let mut cfg = RepoCfg::simple();
+    cfg.version = 1;
+    cfg.chunker = ChunkerCfg::Default;
+    cfg.tree_pack = PackCfg { size: None, grow: None, limit: None };
+    cfg.data_pack = PackCfg { size: None, grow: None, limit: None };
+    cfg.extra_verify = None;
+    cfg.config_file()
+}
+
+fn fresh(storage: &Arc<Storage>) -> Result<RepoOpen, String> {
+    open_repo(storage.handle(), &creds_cfg())
+}
+
+fn raw_config(storage: &Arc<Storage>) -> Option<Vec<u8>> {
+    storage.get(FileType::Config, &Id::default()).map(|b| b.to_vec())
+}
+
+/// length of a smoke-run file of the given class under the configuration in force
+fn file_len(class: u8, cfg: &ConfigFile) -> u64 {
+    let unit = cfg.chunk_size() as u64;
+    let (min, max) = match cfg.chunker() {
+        Chunker::Rabin => (cfg.chunk_min_size() as u64, cfg.chunk_max_size() as u64),
+        Chunker::FixedSize => (unit, unit),
+    };
+    let raw = match class {
+        0 => 0,
+        1 => 1,
+        2 => unit.saturating_sub(1),
+        3 => unit,
+        4 => unit.saturating_add(1),
+        5 => unit.saturating_mul(2).saturating_add(3),
+        6 => unit.saturating_mul(5).saturating_add(17),
+        7 => min.saturating_sub(1),
+        8 => min.saturating_add(1),
+        9 => max,
+        10 => max.saturating_add(1),
+        11 => max.saturating_mul(3).saturating_add(5),
+        _ => 40_000,
+    };
+    // never more than ~64 of the smallest possible chunks per file (a 1-byte fixed-size chunker
+    // would otherwise produce 300 000 blobs) and never more than the cap
+    let smallest = match cfg.chunker() {
+        Chunker::Rabin => min.max(1),
+        Chunker::FixedSize => unit.max(1),
+    };
+    raw.min(FILE_CAP).min(smallest.saturating_mul(64))
+}
+
+fn mk_node(name: &str, kind: MKind, inode: u64) -> MNode {
+    let dir = matches!(kind, MKind::Dir { .. });
+    MNode {
+        name: name.as_bytes().to_vec(),
+        kind,
+        perm: if dir { 0o755 } else { 0o644 },
+        mtime: MTime(1_600_000_000 + inode as i64, 0),
+        ctime: MTime(1_600_000_000 + inode as i64, 0),
+        uid: 1000,
+        gid: 100,
+        inode,
+        device: 7,
+        links: 1,
+    }
+}
+
+fn mk_file(name: &str, spec: &FileSpec, salt: u64, cfg: &ConfigFile, inode: u64) -> MNode {
+    let len = file_len(spec.class, cfg) as u32;
+    let seed = spec.seed ^ salt;
+    let piece = match spec.kind {
+        0 => Piece::Rand { seed, skip: 0, len },
+        1 => Piece::Zeros { len },
+        _ => Piece::Period { seed, p: 37, skip: 0, len },
+    };
+    let content = if len == 0 { Content(vec![]) } else { Content(vec![piece]) };
+    mk_node(name, MKind::File { content }, inode)
+}
+
+/// the smoke-run tree. `second` = the tree of the second backup: first file changed, one added
+fn smoke_tree(c: &CfgCase, cfg: &ConfigFile, second: bool) -> MNode {
+    let mut children = Vec::new();
+    for (i, f) in c.files.iter().enumerate() {
+        let salt = if second && i == 0 { 0x5EC0_17D } else { 0 };
+        children.push(mk_file(&format!("f{i}"), f, salt, cfg, 200 + i as u64));
+    }
+    if second {
+        let f = FileSpec { class: 5, kind: 0, seed: c.files[0].seed ^ 0xADD };
+        children.push(mk_file("fz", &f, 1, cfg, 300));
+    }
+    let inner = mk_file("g0", &c.files[c.files.len() - 1], 0x1717, cfg, 400);
+    children.push(mk_node("d", MKind::Dir { children: vec![inner] }, 401));
+    children.push(mk_node("e", MKind::Dir { children: vec![] }, 402));
+    children.push(mk_node("l", MKind::Symlink { target: b"f0".to_vec() }, 403));
+    let mut root = mk_node("s", MKind::Dir { children }, 100);
+    // a symlink carries mode 0777
+    for ch in root.children_mut().expect("dir") {
+        if matches!(ch.kind, MKind::Symlink { .. }) {
+            ch.perm = 0o777;
+        }
+    }
+    root.normalise();
+    root
+}
+
+fn backup(storage: &Arc<Storage>, tree: &MNode, time: i64) -> Result<SnapshotFile, String> {
+    let repo = fresh(storage)?
+        .to_indexed_ids()
+        .map_err(|e| format!("to_indexed_ids: {}", estr(&e)))?;
+    backup_tree(
+        &repo,
+        tree,
+        &ReadSchedule::default(),
+        &force_opts(),
+        snap_template(time, "host", "", ""),
+    )
+}
+
+fn smoke_prune_opts(mode: u8) -> PruneOptions {
+    let mut o = PruneOptions::default();
+    match mode {
+        0 => {}
+        1 => {
+            o.max_repack = LimitOption::Unlimited;
+            o.max_unused = LimitOption::Size(bs(0));
+            o.keep_delete = Span::new();
+        }
+        _ => {
+            o.max_repack = LimitOption::Unlimited;
+            o.repack_all = true;
+            o.instant_delete = true;
+        }
+    }
+    o
+}
+
+#[derive(Default)]
+struct SmokeInfo {
+    multi_chunk: bool,
+    packs: usize,
+    prune_err: bool,
+}
+
+/// backup, read back, check, prune, restore on the configuration `cfg` the repository accepted
+fn smoke(
+    storage: &Arc<Storage>,
+    c: &CfgCase,
+    cfg: &ConfigFile,
+    first: Option<&(SnapshotFile, MNode)>,
+) -> Result<SmokeInfo, String> {
+    let mut info = SmokeInfo::default();
+    let tree = smoke_tree(c, cfg, true);
+    let model = flatten(&tree);
+    let snap = backup(storage, &tree, 1_700_000_100)?;
+    let cmp = CmpOpts { full_meta: true, content: true };
+
+    let full = open_full(storage, &creds_cfg()).map_err(|e| format!("after a successful backup: {e}"))?;
+    let got = read_snapshot(&full, &snap, true)
+        .map_err(|e| format!("backup returned Ok but the snapshot cannot be read: {e}"))?;
+    if let Some(d) = compare(&model, &got, &cmp) {
+        return Err(format!("listing/dump differs from the source: {d}"));
+    }
+    info.multi_chunk = got
+        .values()
+        .any(|g| g.node.content.as_ref().is_some_and(|c| c.len() >= 2));
+    if let Some((snap_a, tree_a)) = first {
+        let got = read_snapshot(&full, snap_a, true)
+            .map_err(|e| format!("the snapshot written before the configuration changes cannot be read: {e}"))?;
+        if let Some(d) = compare(&flatten(tree_a), &got, &cmp) {
+            return Err(format!("the snapshot written before the configuration changes differs from its source: {d}"));
+        }
+    }
+    check_repo(&full, true).map_err(|e| format!("after backup: {e}"))?;
+    info.packs = storage.ids(FileType::Pack).len();
+    drop(full);
+
+    let append_only = cfg.append_only == Some(true);
+    let repo = fresh(storage)?;
+    if let (Some((snap_a, _)), true) = (first, c.forget_first) {
+        match guarded(|| repo.delete_snapshots(&[snap_a.id])) {
+            Err(p) => return Err(format!("forget panicked: {p}")),
+            Ok(Err(e)) if !append_only => return Err(format!("forget returned an error: {}", estr(&e))),
+            Ok(_) => {}
+        }
+    }
+    let popts = smoke_prune_opts(c.prune_mode);
+    match guarded(|| repo.prune_plan(&popts).and_then(|plan| repo.prune(&popts, plan))) {
+        Err(p) => return Err(format!("prune (mode {}) panicked: {p}", c.prune_mode)),
+        Ok(Err(_)) => {
+            // an error is a permitted outcome of prune (append-only repositories always refuse);
+            // the state after a failed prune is not judged here
+            info.prune_err = true;
+            return Ok(info);
+        }
+        Ok(Ok(())) => {}
+    }
+    drop(repo);
+
+    let full = open_full(storage, &creds_cfg()).map_err(|e| format!("after prune: {e}"))?;
+    let scratch = Scratch::new("c18");
+    let dest = scratch.path().join("dest");
+    restore_snapshot(&full, &snap, &dest, &RestoreOptions::default().numeric_id(true))
+        .map_err(|e| format!("after prune: {e}"))?;
+    let fs = walk(&dest).map_err(|e| format!("cannot walk the restored tree: {e}"))?;
+    if let Some(d) = compare_fs(
+        &model,
+        &fs,
+        &FsCmp { ownership: super::c01::is_root(), hardlinks: true, exact_set: true },
+    ) {
+        return Err(format!("after prune the restored tree differs from the source: {d}"));
+    }
+    check_repo(&full, true).map_err(|e| format!("after prune: {e}"))?;
+    Ok(info)
+}
+
+pub fn run_config(c: &CfgCase, ctx: &Ctx) -> Outcome {
+    let matched = cfg_known_keys(c);
+    let mut out = Outcome::pass()
+        .class(match c.start {
+            Start::Init(_) => "start_init",
+            Start::V1 => "start_v1",
+        })
+        .class(format!("steps={}", c.steps.len()));
+    if let Some(k) = assumed_known(ctx, &matched) {
+        return out.skip(format!("assumed-known:{k}"));
+    }
+    if let Some(k) = choose_key(ctx, &matched) {
+        out = out.known(k);
+    }
+    macro_rules! fail {
+        ($($arg:tt)*) => {{
+            out.failure = Some(format!($($arg)*));
+            return out;
+        }};
+    }
+
+    let storage = Storage::new();
+    let creds = creds_cfg().credentials();
+    let mut accepted_named = 0usize;
+
+    // ---- start -------------------------------------------------------------------------------
+    let mut cur: ConfigFile = match &c.start {
+        Start::V1 => {
+            let cfg = v1_config();
+            let r = guarded(|| {
+                Repository::new(&repo_opts(), &backends(storage.handle()))?.init_with_config(
+                    &creds,
+                    &KeyOptions::default(),
+                    cfg.clone(),
+                )
+            });
+            match r {
+                Ok(Ok(_)) => cfg,
+                Ok(Err(e)) => fail!("init_with_config of a plain version-1 configuration failed: {}", estr(&e)),
+                Err(p) => fail!("init_with_config panicked: {p}"),
+            }
+        }
+        Start::Init(o) => {
+            let lib = o.to_lib();
+            let r = guarded(|| {
+                Repository::new(&repo_opts(), &backends(storage.handle()))?.init(&creds, &KeyOptions::default(), &lib)
+            });
+            match r {
+                Err(p) => fail!("init panicked: {p}"),
+                Ok(Err(_)) => {
+                    if raw_config(&storage).is_some() {
+                        fail!("init refused the options but left a config file in the backend");
+                    }
+                    return out.class("init_refused");
+                }
+                Ok(Ok(repo)) => {
+                    if let Some(v) = o.version.filter(|v| *v < 2) {
+                        fail!("init accepted version {v}, lower than the version 2 it starts from");
+                    }
+                    let mem = repo.config().clone();
+                    drop(repo);
+                    let stored = match fresh(&storage) {
+                        Ok(r) => r.config().clone(),
+                        Err(e) => fail!("init returned Ok but the repository cannot be opened: {e}"),
+                    };
+                    if let Some(d) = diff_cfg(&mem, &stored) {
+                        fail!("the handle returned by init and a fresh open disagree on the configuration: {d}");
+                    }
+                    if stored.id == ConfigFile::default().id
+                        || u64::from_str_radix(&stored.chunker_polynomial, 16).map_or(true, |p| p == 0)
+                    {
+                        fail!("init stored no repository id or no usable chunker polynomial");
+                    }
+                    let mut base = ConfigFile::default();
+                    base.version = 2;
+                    base.id = stored.id;
+                    base.chunker_polynomial = stored.chunker_polynomial.clone();
+                    match o.expect(&base) {
+                        Err(e) => fail!("init accepted the options although {e}"),
+                        Ok(want) => {
+                            if let Some(d) = diff_cfg(&want, &stored) {
+                                fail!("configuration stored by init differs from defaults + named options: {d}");
+                            }
+                        }
+                    }
+                    accepted_named += o.named();
+                    out = out.class("init_ok");
+                    stored
+                }
+            }
+        }
+    };
+
+    // ---- optional first backup -----------------------------------------------------------------
+    let mut first: Option<(SnapshotFile, MNode)> = None;
+    if c.backup_first {
+        let tree = smoke_tree(c, &cur, false);
+        match backup(&storage, &tree, 1_700_000_000) {
+            Ok(s) => first = Some((s, tree)),
+            Err(e) => fail!("first backup on the accepted initial configuration: {e}"),
+        }
+        out = out.class("backup_before_changes");
+    }
+
+    // ---- configuration changes -----------------------------------------------------------------
+    let (mut n_ok, mut n_err) = (0u64, 0u64);
+    for (i, o) in c.steps.iter().enumerate() {
+        let before = raw_config(&storage);
+        let mut repo = match fresh(&storage) {
+            Ok(r) => r,
+            Err(e) => fail!("step {i}: cannot open the repository: {e}"),
+        };
+        let lib = o.to_lib();
+        match guarded(|| repo.apply_config(&lib)) {
+            Err(p) => fail!("step {i}: apply_config panicked: {p}"),
+            Ok(Err(_)) => {
+                n_err += 1;
+                drop(repo);
+                if raw_config(&storage) != before {
+                    fail!("step {i}: apply_config refused the change but the stored config file changed");
+                }
+                let stored = match fresh(&storage) {
+                    Ok(r) => r.config().clone(),
+                    Err(e) => fail!("step {i}: after a refused change the repository cannot be opened: {e}"),
+                };
+                if let Some(d) = diff_cfg(&cur, &stored) {
+                    fail!("step {i}: after a refused change a fresh open yields a different configuration: {d}");
+                }
+            }
+            Ok(Ok(changed)) => {
+                n_ok += 1;
+                if let Some(v) = o.version.filter(|v| *v < cur.version) {
+                    fail!("step {i}: version {v} accepted although the stored version is {}", cur.version);
+                }
+                let mem = repo.config().clone();
+                drop(repo);
+                let stored = match fresh(&storage) {
+                    Ok(r) => r.config().clone(),
+                    Err(e) => fail!("step {i}: apply_config returned Ok but the repository cannot be opened: {e}"),
+                };
+                match o.expect(&cur) {
+                    Err(e) => fail!("step {i}: apply_config accepted the options although {e}"),
+                    Ok(want) => {
+                        if let Some(d) = diff_cfg(&want, &stored) {
+                            fail!("step {i}: stored configuration is not the previous one + the named settings: {d}");
+                        }
+                    }
+                }
+                if let Some(d) = diff_cfg(&stored, &mem) {
+                    fail!("step {i}: the handle that applied the change and a fresh open disagree: {d}");
+                }
+                if !changed && raw_config(&storage) != before {
+                    fail!("step {i}: apply_config reported 'unchanged' but rewrote the config file");
+                }
+                accepted_named += o.named();
+                cur = stored;
+            }
+        }
+    }
+    out = out
+        .count("changes_accepted", n_ok)
+        .count("changes_refused", n_err)
+        .class_if(n_ok > 0, "change_accepted")
+        .class_if(n_err > 0, "change_refused");
+
+    // ---- smoke run on the configuration in force ----------------------------------------------
+    let info = match smoke(&storage, c, &cur, first.as_ref()) {
+        Ok(i) => i,
+        Err(e) => fail!(
+            "smoke run on the accepted configuration {} failed: {e}",
+            serde_json::to_string(&cur).unwrap_or_default()
+        ),
+    };
+    let boundary = all_opts(c).iter().any(|o| o.has_boundary());
+    out = out
+        .class("smoke_done")
+        .class(match cur.chunker() {
+            Chunker::Rabin => "final_rabin",
+            Chunker::FixedSize => "final_fixed",
+        })
+        .class_if(cur.version == 1, "final_v1")
+        .class_if(cur.append_only == Some(true), "final_append_only")
+        .class_if(info.multi_chunk, "multi_chunk_file")
+        .class_if(info.packs >= 3, "packs>=3")
+        .class_if(info.prune_err, "smoke_prune_err")
+        .class_if(boundary, "boundary_value");
+    out.nontrivial = boundary && accepted_named > 0 && !info.prune_err;
+    out
+}
+
+// ---------------------------------------------------------------------------------------------
+// sub-check "prune_limits"
+// ---------------------------------------------------------------------------------------------
+
+#[derive(Debug, Clone, PartialEq, Eq, Serialize, Deserialize)]
+pub enum Lim {
+    Percent(u64),
+    Size(u64),
+    Unlimited,
+}
+
+impl Lim {
+    fn to_lib(&self) -> LimitOption {
+        match self {
+            Lim::Percent(p) => LimitOption::Percentage(*p),
+            Lim::Size(s) => LimitOption::Size(bs(*s)),
+            Lim::Unlimited => LimitOption::Unlimited,
+        }
+    }
+}
+
+/// unit: 0 seconds, 1 hours, 2 days, 3 years; always inside the limits of the span type
+#[derive(Debug, Clone, PartialEq, Eq, Serialize, Deserialize)]
+pub struct SpanSpec {
+    pub unit: u8,
+    pub n: i64,
+}
+
+impl SpanSpec {
+    fn to_lib(&self) -> Span {
+        let s = Span::new();
+        let r = match self.unit {
+            0 => s.try_seconds(self.n.clamp(-631_107_417_600, 631_107_417_600)),
+            1 => s.try_hours(self.n.clamp(-175_307_616, 175_307_616)),
+            2 => s.try_days(self.n.clamp(-7_304_484, 7_304_484)),
+            _ => s.try_years(self.n.clamp(-19_998, 19_998)),
+        };
+        r.expect("span inside the documented limits")
+    }
+}
+
+#[derive(Debug, Clone, PartialEq, Eq, Serialize, Deserialize)]
+pub struct POpts {
+    pub max_unused: Lim,
+    pub max_repack: Lim,
+    pub keep_pack: SpanSpec,
+    pub keep_delete: SpanSpec,
+    pub instant_delete: bool,
+    pub early_delete_index: bool,
+    pub fast_repack: bool,
+    pub repack_uncompressed: bool,
+    pub repack_all: bool,
+    pub repack_cacheable_only: Option<bool>,
+    pub no_resize: bool,
+}
+
+impl POpts {
+    fn to_lib(&self) -> PruneOptions {
+        let mut o = PruneOptions::default();
+        o.max_unused = self.max_unused.to_lib();
+        o.max_repack = self.max_repack.to_lib();
+        o.keep_pack = self.keep_pack.to_lib();
+        o.keep_delete = self.keep_delete.to_lib();
+        o.instant_delete = self.instant_delete;
+        o.early_delete_index = self.early_delete_index;
+        o.fast_repack = self.fast_repack;
+        o.repack_uncompressed = self.repack_uncompressed;
+        o.repack_all = self.repack_all;
+        o.repack_cacheable_only = self.repack_cacheable_only;
+        o.no_resize = self.no_resize;
+        o
+    }
+}
+
+#[derive(Debug, Clone, Serialize, Deserialize)]
+pub struct PruneCase {
+    pub cfg: RepoCfg,
+    pub tree: MNode,
+    pub edits: Vec<Edit>,
+    /// forget the second snapshot instead of the first
+    pub forget_second: bool,
+    pub popts: POpts,
+    /// run plan + prune this many times with the same options (the second round meets packs
+    /// that the first one marked for deletion)
+    pub rounds: u8,
+}
+
+fn lim(with_huge_pct: bool) -> BoxedStrategy<Lim> {
+    let _ = with_huge_pct;
+    prop_oneof![
+        6 => prop::sample::select(vec![0u64, 1, 5, 10, 50, 99]).prop_map(Lim::Percent),
+        2 => Just(Lim::Percent(100)),
+        2 => prop::sample::select(vec![101u64, 200, 1000]).prop_map(Lim::Percent),
+        1 => prop::sample::select(vec![u64::from(u32::MAX), 1u64 << 40, u64::MAX / 100, u64::MAX]).prop_map(Lim::Percent),
+        3 => prop::sample::select(vec![0u64, 1]).prop_map(Lim::Size),
+        2 => (1u64..50_000).prop_map(Lim::Size),
+        2 => prop::sample::select(vec![u64::from(u32::MAX), u64::MAX - 1, u64::MAX]).prop_map(Lim::Size),
+        3 => Just(Lim::Unlimited),
+    ]
+    .boxed()
+}
+
+fn span() -> BoxedStrategy<SpanSpec> {
+    prop_oneof![
+        4 => Just(SpanSpec { unit: 0, n: 0 }),
+        2 => prop::sample::select(vec![1i64, -1, 3600, -3600, 631_107_417_600, -631_107_417_600]).prop_map(|n| SpanSpec { unit: 0, n }),
+        2 => prop::sample::select(vec![23i64, -23, 1, 175_307_616, -175_307_616]).prop_map(|n| SpanSpec { unit: 1, n }),
+        2 => prop::sample::select(vec![1i64, -1, 30, 100_000, -100_000, 7_304_484, -7_304_484]).prop_map(|n| SpanSpec { unit: 2, n }),
+        1 => prop::sample::select(vec![1i64, -1, 100, 19_998, -19_998]).prop_map(|n| SpanSpec { unit: 3, n }),
+    ]
+    .boxed()
+}
+
+fn prune_cfg() -> BoxedStrategy<RepoCfg> {
+    (
+        prop_oneof![1 => Just(1u8), 3 => Just(2u8)],
+        prop_oneof![Just(None), Just(Some(0i32)), Just(Some(3i32))],
+        prop_oneof![Just(Some(0u32)), Just(Some(1500u32)), Just(Some(8192u32)), Just(None)],
+        prop_oneof![Just(Some(0u32)), Just(Some(3000u32)), Just(Some(20_000u32)), Just(None)],
+        prop_oneof![3 => Just(Some(0u32)), 1 => Just(Some(1u32)), 1 => Just(None)],
+    )
+        .prop_map(|(version, compression, tsize, dsize, grow)| {
+            let mut c = RepoCfg::simple();
+            c.version = version;
+            c.compression = if version == 1 { None } else { compression };
+            c.tree_pack = PackCfg { size: tsize, grow, limit: None };
+            c.data_pack = PackCfg { size: dsize, grow, limit: None };
+            c
+        })
+        .boxed()
+}
+
+fn prune_tree_params() -> TreeParams {
+    TreeParams { unit: 512, file_cap: 20_000, max_children: 3, depth: 2 }
+}
+
+fn prune_strategy(_ctx: &Ctx) -> BoxedStrategy<PruneCase> {
+    let p = prune_tree_params();
+    let popts = (
+        (lim(true), lim(true), span(), span()),
+        (
+            prop::bool::weighted(0.3),
+            prop::bool::weighted(0.3),
+            prop::bool::weighted(0.25),
+            prop::bool::weighted(0.15),
+            prop::bool::weighted(0.2),
+            prop_oneof![3 => Just(None), 1 => Just(Some(true)), 1 => Just(Some(false))],
+            prop::bool::weighted(0.2),
+        ),
+    )
+        .prop_map(|((max_unused, max_repack, keep_pack, keep_delete), b)| POpts {
+            max_unused,
+            max_repack,
+            keep_pack,
+            keep_delete,
+            instant_delete: b.0,
+            early_delete_index: b.1,
+            fast_repack: b.2,
+            repack_uncompressed: b.3,
+            repack_all: b.4,
+            repack_cacheable_only: b.5,
+            no_resize: b.6,
+        });
+    (
+        prune_cfg(),
+        tree(p),
+        prop::collection::vec(edit(p), 1..5),
+        prop::bool::weighted(0.35),
+        popts,
+        1u8..=2,
+    )
+        .prop_map(|(cfg, tree, edits, forget_second, popts, rounds)| PruneCase {
+            cfg,
+            tree,
+            edits,
+            forget_second,
+            popts,
+            rounds,
+        })
+        .boxed()
+}
+
+fn err_class(e: &rustic_core::RusticError) -> String {
+    let s = estr(e);
+    let l = s.lines().find(|l| !l.trim().is_empty()).unwrap_or("").trim();
+    l.chars().filter(|c| !c.is_ascii_digit()).take(70).collect()
+}
+
+fn prune_known_keys(c: &PruneCase) -> Vec<&'static str> {
+    let mut keys = Vec::new();
+    let p = &c.popts;
+    let overridden = p.repack_uncompressed || p.repack_all;
+    if let Lim::Percent(pc) = p.max_unused {
+        if !overridden && pc >= 100 {
+            keys.push(K_UNUSED_100);
+        }
+    }
+    if let Lim::Percent(pc) = p.max_repack {
+        // repositories of this check hold less than 2^24 bytes
+        if pc > (1u64 << 40) {
+            keys.push(K_PCT_OVERFLOW);
+        }
+    }
+    keys
+}
+
+pub fn run_prune(c: &PruneCase, ctx: &Ctx) -> Outcome {
+    let matched = prune_known_keys(c);
+    let p = &c.popts;
+    let lim_class = |l: &Lim| match l {
+        Lim::Percent(p) if *p < 100 => "pct<100",
+        Lim::Percent(100) => "pct=100",
+        Lim::Percent(_) => "pct>100",
+        Lim::Size(0) => "size=0",
+        Lim::Size(_) => "size>0",
+        Lim::Unlimited => "unlimited",
+    };
+    let mut out = Outcome::pass()
+        .class(format!("max_unused:{}", lim_class(&p.max_unused)))
+        .class(format!("max_repack:{}", lim_class(&p.max_repack)))
+        .class_if(p.keep_pack.n < 0 || p.keep_delete.n < 0, "negative_span")
+        .class_if(p.keep_pack.n.abs() > 1_000_000 || p.keep_delete.n.abs() > 1_000_000, "huge_span")
+        .class_if(p.instant_delete, "instant_delete")
+        .class_if(p.repack_all || p.repack_uncompressed, "repack_all/uncompressed")
+        .class(format!("rounds={}", c.rounds));
+    if let Some(k) = assumed_known(ctx, &matched) {
+        return out.skip(format!("assumed-known:{k}"));
+    }
+    if let Some(k) = choose_key(ctx, &matched) {
+        out = out.known(k);
+    }
+    macro_rules! fail {
+        ($($arg:tt)*) => {{
+            out.failure = Some(format!($($arg)*));
+            return out;
+        }};
+    }
+
+    // ---- a repository with two snapshots, one of them forgotten ---------------------------------
+    let storage = Storage::new();
+    let repo = match init_repo(storage.handle(), &c.cfg).and_then(|r| r.to_indexed_ids().map_err(|e| estr(&e))) {
+        Ok(r) => r,
+        Err(e) => fail!("setup: {e}"),
+    };
+    let tree_a = c.tree.clone();
+    let snap_a = match backup_tree(&repo, &tree_a, &ReadSchedule::default(), &force_opts(), snap_template(1_700_000_000, "host", "", "")) {
+        Ok(s) => s,
+        Err(e) => fail!("setup, first backup: {e}"),
+    };
+    drop(repo);
+    let mut tree_b = tree_a.clone();
+    for (i, e) in c.edits.iter().enumerate() {
+        _ = apply_edit(&mut tree_b, e, 10 + i as i64);
+    }
+    tree_b.normalise();
+    let repo = match open_repo(storage.handle(), &c.cfg).and_then(|r| r.to_indexed_ids().map_err(|e| estr(&e))) {
+        Ok(r) => r,
+        Err(e) => fail!("setup: {e}"),
+    };
+    let snap_b = match backup_tree(&repo, &tree_b, &ReadSchedule::default(), &force_opts(), snap_template(1_700_000_500, "host", "", "")) {
+        Ok(s) => s,
+        Err(e) => fail!("setup, second backup: {e}"),
+    };
+    let (gone, kept, kept_tree) = if c.forget_second {
+        (&snap_b, &snap_a, &tree_a)
+    } else {
+        (&snap_a, &snap_b, &tree_b)
+    };
+    match guarded(|| repo.delete_snapshots(&[gone.id])) {
+        Ok(Ok(())) => {}
+        Ok(Err(e)) => fail!("setup, forget: {}", estr(&e)),
+        Err(p) => fail!("setup, forget panicked: {p}"),
+    }
+    drop(repo);
+    let model = flatten(kept_tree);
+    let cmp = CmpOpts { full_meta: true, content: true };
+
+    // ---- prune with the generated options -------------------------------------------------------
+    let lib = p.to_lib();
+    let (mut plans_ok, mut plans_err, mut prunes_ok, mut prunes_err) = (0u64, 0u64, 0u64, 0u64);
+    let mut repacked = false;
+    for round in 0..c.rounds {
+        let repo = match open_repo(storage.handle(), &c.cfg) {
+            Ok(r) => r,
+            Err(e) => fail!("round {round}: {e}"),
+        };
+        let plan = match guarded(|| repo.prune_plan(&lib)) {
+            Err(pn) => fail!("round {round}: prune_plan panicked: {pn}"),
+            Ok(Err(e)) => {
+                plans_err += 1;
+                out = out.class(format!("plan_err:{}", err_class(&e)));
+                None
+            }
+            Ok(Ok(plan)) => {
+                plans_ok += 1;
+                repacked |= !plan.repack_packs().is_empty();
+                Some(plan)
+            }
+        };
+        let mut judge = true;
+        if let Some(plan) = plan {
+            match guarded(|| repo.prune(&lib, plan)) {
+                Err(pn) => fail!("round {round}: prune panicked: {pn}"),
+                Ok(Err(e)) => {
+                    prunes_err += 1;
+                    out = out.class(format!("prune_err:{}", err_class(&e)));
+                    judge = false; // state after a failed prune is not part of this property
+                }
+                Ok(Ok(())) => prunes_ok += 1,
+            }
+        }
+        drop(repo);
+        if !judge {
+            break;
+        }
+        let full = match open_full(&storage, &c.cfg) {
+            Ok(r) => r,
+            Err(e) => fail!("round {round}: after prune returned without error: {e}"),
+        };
+        let got = match read_snapshot(&full, kept, true) {
+            Ok(g) => g,
+            Err(e) => fail!("round {round}: after prune the remaining snapshot cannot be read: {e}"),
+        };
+        if let Some(d) = compare(&model, &got, &cmp) {
+            fail!("round {round}: after prune the remaining snapshot differs from its source: {d}");
+        }
+        if let Err(e) = check_repo(&full, true) {
+            fail!("round {round}: after prune: {e}");
+        }
+    }
+    out = out
+        .count("plans_ok", plans_ok)
+        .count("plans_err", plans_err)
+        .count("prunes_ok", prunes_ok)
+        .count("prunes_err", prunes_err)
+        .class_if(prunes_ok > 0, "prune_ok")
+        .class_if(plans_err + prunes_err > 0, "prune_or_plan_err")
+        .class_if(repacked, "repacked");
+    out.nontrivial = prunes_ok > 0;
+    out
+}
 
 pub fn spec() -> PropSpec {
     PropSpec {
         id: "C18",
         level: "exploration",
-        rule: "",
-        assumptions: vec![],
-        subs: vec![],
+        rule: "config: proptest over (start = Repository::init with generated ConfigOptions | a version-1 repository) x 0..4 apply_config calls x smoke-tree shape; every ConfigOptions field independently unset or one of {0, 1, validation boundaries (63/64/65, 4095/4096, 2^k and 2^k±1, 99/100/101 %, compression -8/-7/22/23 and the zstd limits), interior, u32::MAX±1, 2^40, 2^63, u64::MAX}, half of the chunker groups drawn as coherent rabin/fixed parameter sets with single members pushed over a boundary; smoke run = backup of 1-5 files sized relative to the accepted chunk size (0, 1, size-1/size/size+1, 2x, 5x, min±1, max, max+1, 3x max; capped at 300 kB and 64 smallest chunks) + subdirectory + symlink, fresh open, ls/dump = model, check --read-data, forget, prune (default | unlimited repack | repack-all + instant delete), restore to disk = model, check --read-data. Non-trivial = the case names at least one boundary/huge value, at least one named option set was accepted, and the smoke run (including prune) completed. prune_limits: proptest over (small repository with two snapshots related by an edit script, one forgotten) x PruneOptions with max_unused / max_repack in {0,1,5,10,50,99,100,101,200,1000,u32::MAX,2^40,u64::MAX/100,u64::MAX % ; size 0,1,interior,u32::MAX,u64::MAX ; unlimited}, keep_pack / keep_delete spans {0, ±1 s … ±631107417600 s, ±23 h, ±175307616 h, ±1 d … ±7304484 d, ±1 y … ±19998 y}, all boolean switches, 1-2 rounds. Non-trivial = at least one prune returned Ok and the remaining snapshot was verified.",
+        assumptions: vec![
+            "byte sizes are produced the way the CLI does it, by parsing the decimal number (the harness cannot name the ByteSize type)",
+            "prune returning Err is an admissible outcome (the statement only excludes panics); the repository state after a failed prune is not judged here",
+            "the harness is built with overflow checks (like the repository's own test profile), so arithmetic overflow counts as a panic",
+            "spans are generated inside the limits of jiff::Span; fast_repack together with repack_uncompressed is generated although the CLI declares them conflicting (the public type allows it)",
+        ],
+        subs: vec![
+            Box::new(Sub {
+                name: "config",
+                cases_quick: 1000,
+                cases_thorough: 40_000,
+                max_shrink_iters: 300,
+                strategy: cfg_strategy,
+                run: run_config,
+            }) as Box<dyn DynSub>,
+            Box::new(Sub {
+                name: "prune_limits",
+                cases_quick: 300,
+                cases_thorough: 12_000,
+                max_shrink_iters: 300,
+                strategy: prune_strategy,
+                run: run_prune,
+            }) as Box<dyn DynSub>,
+        ],
         extra: None,
     }
 }
